@@ -74,7 +74,8 @@ def one(sh, case, driver='generated'):
         nt = len(base) >= 5 and bool(base['is_burst'].any())
     for v in vs:
         sh.violate(case, v, driver)
-    sh.note('a=2^%d' % int(round(math.log2(a))))
+    k2 = int(round(math.log2(a)))
+    sh.note('a=2^[%s]' % ('<-26' if k2 < -26 else '-26..-11' if k2 < -10 else '-10..10' if k2 <= 10 else '11..26' if k2 <= 26 else '>26'))
     sh.note('c=%g' % c)
     sh.case_done(case, nt, sample=pipeline.sample_of(case))
 
@@ -84,7 +85,7 @@ def run(sh):
     K = 22 if sh.tier == 'quick' else 1000
     for it in range(K):
         case = gen.gen_pipeline_case(rng)
-        case['a'] = 2.0 ** float(rng.integers(-10, 11))
+        case['a'] = 2.0 ** float(rng.integers(-10, 11) if rng.random() < 0.5 else rng.integers(-60, 61))
         case['c'] = float(rng.choice([.25, .5, 2., 4.]))
         # filter length in cycles; durations in seconds are not part of the rate statement
         fek = case.get('find_extrema_kwargs')
